@@ -772,6 +772,12 @@ func (s *sim) execVote(op Op) {
 	}
 	for i := 0; i < n && !s.stopped(); i++ {
 		if res, ok := s.deliverVote(b); ok {
+			if res == tmconsensus.HandleVoteProofsFutureVerified {
+				if s.futureStored == nil {
+					s.futureStored = map[string]bool{}
+				}
+				s.futureStored[fmt.Sprintf("%d/%d", b.H, b.R)] = true
+			}
 			sv.Results = append(sv.Results, res)
 			s.lastVoteRes = append(s.lastVoteRes, res)
 			s.label("voteres:" + voteResName(res))
@@ -780,7 +786,38 @@ func (s *sim) execVote(op Op) {
 	s.sentVotes = append(s.sentVotes, sv)
 }
 
+// recordSigned remembers which target each validator authentically signed per (kind, h, r).
+func (s *sim) recordSigned(b builtVote) {
+	if s.signed == nil {
+		s.signed = map[string]map[string]bool{}
+	}
+	_, per, _ := b.authentic()
+	for hash, ok := range per {
+		for i := range ok {
+			k := fmt.Sprintf("%d/%d/%d/%d", b.Kind, b.H, b.R, i)
+			if s.signed[k] == nil {
+				s.signed[k] = map[string]bool{}
+			}
+			s.signed[k][hash] = true
+		}
+	}
+}
+
+// honestMask drops the validators that already signed another target of that kind in (h, r):
+// honest validators (round macro) and real certificates (replays) never contain such a second vote.
+func (s *sim) honestMask(kind int, h uint64, r uint32, hash string, mask uint32, n int) uint32 {
+	for _, i := range maskIdx(mask, n) {
+		for other := range s.signed[fmt.Sprintf("%d/%d/%d/%d", kind, h, r, i)] {
+			if other != hash {
+				mask &^= 1 << uint(i)
+			}
+		}
+	}
+	return mask
+}
+
 func (s *sim) classifyVote(b builtVote, pairs int) {
+	s.recordSigned(b)
 	if s.fOnly {
 		if s.fSigned == nil {
 			s.fSigned = map[string]string{}
@@ -902,6 +939,7 @@ func (s *sim) execRound(op Op) {
 		s.label("must-reject-offered")
 	}
 	for kind, mask := range []uint32{ps, pc} {
+		mask = s.honestMask(kind, h, r, hash, mask, n)
 		msg := voteBytes(kind, h, r, hash)
 		b := builtVote{Kind: kind, H: h, R: r, Set: set, PKH: string(set.VS.PubKeyHash), Proofs: map[string][]gcrypto.SparseSignature{}}
 		for _, i := range maskIdx(mask, n) {
@@ -910,6 +948,7 @@ func (s *sim) execRound(op Op) {
 		if len(b.Proofs) == 0 {
 			continue
 		}
+		s.recordSigned(b)
 		if res, ok := s.deliverVote(b); ok {
 			s.lastVoteRes = append(s.lastVoteRes, res)
 		}
@@ -1016,6 +1055,10 @@ func (s *sim) buildReplay(op Op) builtReplay {
 	if variant == rvForeignPowers {
 		// only the validator whose forged power is largest signs: quorum under the forged powers only
 		mask = 1
+	}
+	if s.realCertificates && (variant == rvHonest || variant == rvBadSig || variant == rvBelowQuorum || variant == rvExtraNil || variant == rvWrongPrev) {
+		// a certificate from the real chain holds no second precommit of a validator for that round
+		mask = s.honestMask(1, h, r, hash, mask, n)
 	}
 	msg := precommitBytes(h, r, hash)
 	for _, i := range maskIdx(mask, n) {
